@@ -612,6 +612,7 @@ func nearLimitOneLiners(r *fw.Rand) string {
 	}
 	return b.String()
 }
+
 // compactLayouts writes functions, type and value declarations in layouts the formatter has to change: compound
 // statements, composite literals, struct types and parameter lists spelled on one source line (the printer expands
 // most of them), with and without trailing comments on the same and on the following line, blank lines and
